@@ -302,10 +302,17 @@ class Ev:
         return SetV(v.f)
       return SetV(atom('?[%s]' % core.norm(e.args[0])))
     if isinstance(f, ast.Name) and f.id in ('all', 'any') and e.args:
-      v = self.ev(e.args[0], env, depth)
-      if isinstance(v, tuple) and v[0] == 'forall-arg':
-        # quantifies over another domain: opaque boolean atom named by meaning
-        return BoolV(atom('%s[%s]' % (f.id.upper(), core.norm(e.args[0]))))
+      g = e.args[0]
+      # all(x in S for x in T): quantifies over another domain; the atom is
+      # named by the *meaning* of S (its formula), not by the local spelling
+      if isinstance(g, (ast.GeneratorExp, ast.ListComp)) and len(g.generators) == 1 \
+          and isinstance(g.elt, ast.Compare) and len(g.elt.ops) == 1 and \
+          isinstance(g.elt.ops[0], (ast.In, ast.NotIn)) and \
+          core.norm(g.elt.left) == core.norm(g.generators[0].target):
+        sv = self.ev(g.elt.comparators[0], env, depth)
+        if isinstance(sv, SetV):
+          rel = '∈' if isinstance(g.elt.ops[0], ast.In) else '∉'
+          return BoolV(atom('%s[· %s %s]' % (f.id.upper(), rel, sv.f)))
       return BoolV(atom('%s[%s]' % (f.id.upper(), core.norm(e.args[0]))))
     if isinstance(f, ast.Name) and f.id == 'len':
       return Opaque(core.norm(e))
